@@ -187,5 +187,6 @@ def check(ctx):
     c16.r_name_tables(ctx, 'R15.6')
     c16.r_number_tokens(ctx, 'R15.7')
     c04.group_rule(ctx, 'R15.9', r"^(<(&value::Value|&types::ResolvedType|&types::AliasedType) as miniscript::iter::TreeLike>::as_node|ast::analyze_named_module::\{closure#\d+\})$", 'children of value and type nodes in the order the printers visit them; module item selection', 3)
+    c04.group_rule(ctx, 'R15.11', r'^(num::(NonZero)?Pow2Usize::new|<num::\w+ as (parse::PestParse>::parse|std::str::FromStr>::from_str)(::\{closure#\d+\})*|<types::(UIntType|BuiltinAlias|AliasedType) as parse::PestParse>::parse)$', 'parsers of the printed numbers, bounds and type names', 5)
     c04.group_rule(ctx, 'R15.10', c11.LIT.pattern, 'literal converters: what the printed integers and byte strings are parsed back with', 8)
     c04.r_reviewed_grammar(ctx, 'R15.8', roots={'program', 'ty', 'expression'})
